@@ -249,7 +249,13 @@ def r3(ctx):
   ctx.ob('C18.R3', f, 'percentiles computed from sorted values', ok, 'definitions of values reaching CalculatePercentile: %s' % sorted(set(map(str, reaching))), whyp)
   # samples come from the reservoir data itself (v.data), not a cached copy
   ds = [c for c in ast.walk(f.node) if isinstance(c, ast.Call) and call_attr(c) == '_Downsample']
-  ok = len(ds) == 1 and U(ds[0].args[0]) == 'v.data'
+  ok = len(ds) == 1 and isinstance(ds[0].args[0], ast.Attribute) and ds[0].args[0].attr == 'data' and isinstance(ds[0].args[0].value, ast.Name)
+  if ok:
+    # the variable is the loop/comprehension variable over the collected sample sets (source_agg.work)
+    v_ = ds[0].args[0].value.id
+    gens = [g for n in ast.walk(f.node) if isinstance(n, (ast.ListComp, ast.GeneratorExp)) for g in n.generators if U(g.target) == v_] + \
+           [n for n in ast.walk(f.node) if isinstance(n, ast.For) and U(n.target) == v_]
+    ok = len(gens) == 1 and U(gens[0].iter).endswith('.work')
   ctx.ob('C18.R3', f, 'percentile input is the live reservoir (v.data)', ok, 'downsample input is %s' % [U(d.args[0]) for d in ds],
          'percentiles must lie between the smallest and largest *retained* sample; a stale copy reports samples the reservoir no longer holds')
   pcts = prog.cls(V, 'VarzReceiver').consts.get('VARZ_PERCENTILES')
